@@ -42,14 +42,14 @@ type c19Scenario struct {
 func c19Gen(t *rapid.T) c19Scenario {
 	sc := c19Scenario{
 		MaxConnsPerKey: rapid.IntRange(1, 2).Draw(t, "max_conns"),
-		LifetimeSec:    rapid.SampledFrom([]int{2, 5, 30}).Draw(t, "lifetime"),
+		LifetimeSec:    rapid.SampledFrom([]int{2, 2, 5, 30}).Draw(t, "lifetime"),
 		StaleSec:       rapid.SampledFrom([]int{2, 5, 30}).Draw(t, "stale"),
 		MaxKeys:        rapid.IntRange(1, 2).Draw(t, "max_keys"),
 		CloseAfterSec:  rapid.SampledFrom([]int{0, 1, 3, 10, 70, 200}).Draw(t, "close_after"),
 		Explore:        2, MaxSchedules: 1200,
 	}
 	nw := rapid.IntRange(2, 8).Draw(t, "workers")
-	nkeys := rapid.IntRange(1, 3).Draw(t, "keys")
+	nkeys := rapid.SampledFrom([]int{1, 1, 1, 2, 3}).Draw(t, "keys")
 	for w := 0; w < nw; w++ {
 		var ops []c19Op
 		for i, n := 0, rapid.IntRange(1, 3).Draw(t, "nops"); i < n; i++ {
